@@ -7,11 +7,13 @@ def run(tier='quick', seed=0, nproc=16):
   jobs = gen.shuffled([(s.kinds, s.hasdef, 2 if tier == 'quick' else 3) for s in gen.all_sigs(n)])
   res = common.pmap(c01.check_sig, jobs, nproc)
   res.append(common.guard(c01.callable_kinds_case))
+  res.append(common.guard(c01.nested_containers_case))
   return common.merge(
       res, 'layerb.c01',
       rule='exhaustive: signature shape (<=%d params, every default pattern) x every subset of '
            'parameters set x varargs x extra kwargs x {Config, Partial}; recording callable; oracle = '
            'expected binding from the reference model, cross-checked by a real direct call; '
            'non-trivial = non-empty store; the same function configured as bound method / plain function / '
-           'classmethod / staticmethod / callable instance / partial, in every order of two' % n,
+           'classmethod / staticmethod / callable instance / partial, in every order of two; nested Buildables '
+           'inside lists, tuples, dicts, named tuples, defaultdicts' % n,
       exhaustive=True, bound=f'signatures <={n} params')
